@@ -448,6 +448,25 @@ fn quals_step(q: &mut Qualifiers, a: &[&str]) -> Result<String, String> {
                 None => "F".to_string(),
             }
         },
+        // empty a value IN PLACE through the `&mut` handle (truncate / drain / retain / pop: the allocation stays)
+        "trunc" => {
+            let k = unh(arg(a, 1)?)?;
+            let how = arg(a, 2).unwrap_or("t");
+            match q.get_mut(k.as_str()) {
+                Some(slot) => {
+                    match how {
+                        "d" => {
+                            slot.drain(..);
+                        },
+                        "r" => slot.retain(|_| false),
+                        "p" => while slot.pop().is_some() {},
+                        _ => slot.truncate(0),
+                    }
+                    "T".to_string()
+                },
+                None => "F".to_string(),
+            }
+        },
         "rm" => match q.remove(unh(arg(a, 1)?)?.as_str()) {
             Some(v) => h(&v),
             None => "~".to_string(),
